@@ -1030,23 +1030,11 @@ def r02g(model, ctx):
     sites = [
         ("_eval_assign_inner:Signal", f"{PYEVAL}::_eval_assign_inner", PYEVAL, "Signal", "value"),
     ]
-    fn, lvs = interp.leaves(model, f"{PYEVAL}::_eval_assign_inner")
-    lf = select_leaf(lvs, _env("Signal"))
-    paths = [p for p in run_paths(lf.body) if p.how == "fall"]
-    need(paths, "_eval_assign_inner Signal branch: no fall-through path")
-    ok = True
-    for p in paths:
-        upd = [n for e in p.effects for n in ast.walk(e) if isinstance(n, ast.Call) and unparse(n.func).endswith(".update")]
-        need(len(upd) == 1, "_eval_assign_inner Signal: update() call not found")
-        v = upd[0].args[0]
-        found = masked_merges(v)
-        good = [b for b in found if pmatch("(1 << _V_HI) - (1 << lhs_start)", b[1]) is not None
-                and pmatch("rhs << lhs_start", b[2]) is not None and unparse(b[0]).endswith(".next")]
-        ok = ok and bool(good)
-    ctx.check(ok, R, "_eval_assign_inner:Signal", "next & ~mask | (rhs << start) & mask, mask = (1<<stop)-(1<<start)",
-              "testbench signal write must merge (old & ~mask) | ((rhs << lhs_start) & mask) with one mask built from "
-              "lhs_start/lhs_stop", f"{PYEVAL}:{lf.lineno}")
-
+    from . import c05
+    c05.compare_assign_leaf(model, ctx, R, "_eval_assign_inner:Signal", "Signal", c05.REF_ASSIGN_SIGNAL,
+                            "next & ~mask | (rhs << start) & mask, mask = (1<<stop)-(1<<start)",
+                            "A testbench signal write must merge (old & ~mask) | ((rhs << lhs_start) & mask) into the pending value "
+                            "with one mask built from lhs_start/lhs_stop.")
     # pending-value merges of the simulator state objects, compared as whole-method summaries with reference semantics
     from ..engine import refsem
     for ref, label, refsrc, why in [
